@@ -22,7 +22,7 @@ import (
 func init() {
 	Registry["C07"] = &Check{
 		Scenarios: c07Scenarios,
-		Rule: "schedules: W in {2,3} writer threads, 1-2 messages each with sizes from {200 B, 2 KiB, 5 KiB} (below/above the 1 KiB pooled serialisation buffer and the 4 KiB bufio buffer) written to one diam.Conn through Message.WriteTo, Conn.Write with caller-serialised bytes and Message.WriteToStreamWithRetry (rotating per writer and message) over an in-memory transport whose Write stalls between two pieces; every schedule up to the preemption bound (W=2: bound 2 quick / unbounded thorough; W=3: bound 2 / 3), happens-before state caching. faults: every sequence of write outcomes (bytes accepted k in {0,1,n/2,n-1,n} x {temporary, permanent, nil}) of length <= retries+1 for retries 0..3 against writeRetry (io.Writer) and writeStreamRetry (MultistreamWriter), and through a diam.Conn over a faulting transport. stale-connection: a write to a connection that has ended, after a new connection was created, never reaches the new connection's transport. close-during-write: one writer (200 / 4096 / 5120 bytes) whose transport write stalls half way and an application goroutine closing the connection at every instant (preemption bound 3): the transport never receives more than a prefix of the message. sizes: every message size 32..8300 (multiples of four) through WriteTo / Conn.Write / WriteToWithRetry on a fault-free connection: the transport holds exactly the message as soon as the write has returned.",
+		Rule: "schedules: W in {2,3} writer threads, 1-2 messages each with sizes from {200 B, 2 KiB, 5 KiB} (below/above the 1 KiB pooled serialisation buffer and the 4 KiB bufio buffer) written to one diam.Conn through Message.WriteTo, Conn.Write with caller-serialised bytes and Message.WriteToStreamWithRetry (rotating per writer and message) over an in-memory transport whose Write stalls between two pieces; every schedule up to the preemption bound (W=2: bound 2 quick / unbounded thorough; W=3: bound 2 / 3), happens-before state caching. faults: every sequence of write outcomes (bytes accepted k in {0,1,n/2,n-1,n} x {temporary, permanent, nil}) of length <= retries+1 for retries 0..3 against writeRetry (io.Writer) and writeStreamRetry (MultistreamWriter), and through a diam.Conn over a faulting transport with two messages of sizes {200+2048, 5000+200, 200+5000, 4116+6000} (below and above the connection's 4 KiB write buffer): the wire must hold every message whose write returned nil, whole, once and in order, a failed write contributes a prefix of its message, and nothing may follow a torn message. stale-connection: a write to a connection that has ended, after a new connection was created, never reaches the new connection's transport. close-during-write: one writer (200 / 4096 / 5120 bytes) whose transport write stalls half way and an application goroutine closing the connection at every instant (preemption bound 3): the transport never receives more than a prefix of the message. sizes: every message size 32..8300 (multiples of four) through WriteTo / Conn.Write / WriteToWithRetry on a fault-free connection: the transport holds exactly the message as soon as the write has returned.",
 		Assume: []string{"data-race freedom between visible operations (audited separately with -race)", "the source rewriter and shims preserve Go semantics (shim unit tests)"},
 		QuickBudget: 100, ThoroughBudget: 1500,
 	}
@@ -379,64 +379,99 @@ func c07FaultOracle(want []byte, sc []wOutcome, retries int, n int64, err error,
 // c07ConnFaults: the same outcome sequences through a real diam.Conn over a faulting
 // transport (single default schedule: the quantifier is over fault sequences).
 func c07ConnFaults(r *SeqResult) {
-	m1 := c07msg(0, 0, 200)
-	m2 := c07msg(0, 1, 2048)
-	b1, _ := m1.Serialize()
-	b2, _ := m2.Serialize()
 	scripts := allScripts(3)
 	sort.Slice(scripts, func(i, j int) bool { return len(scripts[i]) < len(scripts[j]) })
-	for retries := uint(0); retries <= 2; retries++ {
-		for _, sc := range scripts {
-			sc := sc
-			var res []error
-			var conn *vnet.Conn
-			s := vs.Run(nil, false, 0, false, func() {
-				conn = vnet.NewConn("C")
-				conn.Pieces = 1
-				for _, o := range sc {
-					var e error
-					switch o.Kind {
-					case 1:
-						e = tempErr{}
-					case 2:
-						e = errPermanent
+	// message sizes below and above the 4 KiB write buffer of a connection
+	for _, sizes := range [][2]int{{200, 2048}, {5000, 200}, {200, 5000}, {4096 + 20, 6000}} {
+		m1 := c07msg(0, 0, sizes[0])
+		m2 := c07msg(0, 1, sizes[1])
+		b1, _ := m1.Serialize()
+		b2, _ := m2.Serialize()
+		for retries := uint(0); retries <= 2; retries++ {
+			for _, sc := range scripts {
+				sc := sc
+				var res []error
+				var conn *vnet.Conn
+				s := vs.Run(nil, false, 0, false, func() {
+					conn = vnet.NewConn("C")
+					conn.Pieces = 1
+					for _, o := range sc {
+						var e error
+						switch o.Kind {
+						case 1:
+							e = tempErr{}
+						case 2:
+							e = errPermanent
+						}
+						conn.WScript = append(conn.WScript, vnet.WOutcome{N: -(o.K + 1), Err: e})
 					}
-					conn.WScript = append(conn.WScript, vnet.WOutcome{N: -(o.K + 1), Err: e})
+					c, _ := diam.NewConn(conn, "peer", diam.NewServeMux(), dict.Default)
+					_, e1 := m1.WriteToWithRetry(c, retries)
+					_, e2 := m2.WriteToWithRetry(c, retries)
+					res = []error{e1, e2}
+				})
+				out := append([]byte{}, conn.Out...)
+				s.Teardown()
+				r.Cases++
+				r.Distinct++
+				if r.Sample == "" && len(sc) == 2 {
+					r.Sample = fmt.Sprintf("retries=%d transport outcomes=%v -> errors %v, %d bytes on the wire", retries, sc, res, len(out))
 				}
-				c, _ := diam.NewConn(conn, "peer", diam.NewServeMux(), dict.Default)
-				_, e1 := m1.WriteToWithRetry(c, retries)
-				_, e2 := m2.WriteToWithRetry(c, retries)
-				res = []error{e1, e2}
-			})
-			out := append([]byte{}, conn.Out...)
-			s.Teardown()
-			r.Cases++
-			r.Distinct++
-			if r.Sample == "" && len(sc) == 2 {
-				r.Sample = fmt.Sprintf("retries=%d transport outcomes=%v -> errors %v, %d bytes on the wire", retries, sc, res, len(out))
-			}
-			if r.Violation != "" {
-				continue
-			}
-			valid := append(append([]byte{}, b1...), b2...)
-			viol := ""
-			switch {
-			case len(res) != 2:
-				viol = "harness did not complete"
-			case res[0] == nil && res[1] == nil && !bytes.Equal(out, valid):
-				viol = "both writes returned nil but the wire does not hold exactly the two messages"
-			case res[0] == nil && !bytes.HasPrefix(out, b1):
-				viol = "first write returned nil but the wire does not start with the whole first message"
-			case res[0] == nil && res[1] != nil && !bytes.HasPrefix(valid, out):
-				viol = "wire is not a prefix of the valid concatenation"
-			case res[0] != nil && res[1] != nil && !bytes.HasPrefix(valid, out):
-				viol = "both writes failed and the wire is not a prefix of the valid concatenation"
-			case res[0] != nil && res[1] == nil && !(bytes.Contains(out, b2) && bytes.Count(out, b2) == 1):
-				viol = "second write returned nil but the wire does not contain the second message exactly once"
-			}
-			if viol != "" {
-				r.Violation = fmt.Sprintf("%s (retries=%d, transport outcomes=%v, errors=%v, wire=%d bytes)", viol, retries, sc, res, len(out))
-				r.Case = map[string]interface{}{"retries": retries, "script": sc}
+				if r.Violation != "" {
+					continue
+				}
+				viol := ""
+				if len(res) != 2 {
+					viol = "harness did not complete"
+				} else {
+					// the wire must be: every message whose write returned nil, whole, exactly once and in
+					// order; a message whose write failed contributes a prefix of itself (possibly empty),
+					// and once a torn message (a non-empty strict prefix) is on the wire nothing follows it
+					// (every message starts with the same two bytes, so a failed write that put nothing on
+					// the wire must not be mistaken for a torn one: both readings are tried)
+					msgs := [][]byte{b1, b2}
+					var parse func(i, pos int) string
+					parse = func(i, pos int) string {
+						if i == len(msgs) {
+							if pos != len(out) {
+								return fmt.Sprintf("%d bytes on the wire that belong to no message at offset %d", len(out)-pos, pos)
+							}
+							return ""
+						}
+						b, rest := msgs[i], out[pos:]
+						if res[i] == nil {
+							if !bytes.HasPrefix(rest, b) {
+								return fmt.Sprintf("write %d returned nil but the wire does not hold the whole message at offset %d", i+1, pos)
+							}
+							return parse(i+1, pos+len(b))
+						}
+						k := 0
+						for k < len(rest) && k < len(b) && rest[k] == b[k] {
+							k++
+						}
+						first := ""
+						for _, kk := range []int{k, 0} {
+							var v string
+							if kk > 0 && kk < len(b) && pos+kk != len(out) {
+								v = fmt.Sprintf("write %d failed after %d of its %d bytes had reached the transport, and %d more bytes were written behind that torn message", i+1, kk, len(b), len(out)-pos-kk)
+							} else {
+								v = parse(i+1, pos+kk)
+							}
+							if v == "" {
+								return ""
+							}
+							if first == "" {
+								first = v
+							}
+						}
+						return first
+					}
+					viol = parse(0, 0)
+				}
+				if viol != "" {
+					r.Violation = fmt.Sprintf("%s (message sizes %v, retries=%d, transport outcomes=%v, errors=%v, wire=%d bytes)", viol, sizes, retries, sc, res, len(out))
+					r.Case = map[string]interface{}{"sizes": sizes, "retries": retries, "script": sc}
+				}
 			}
 		}
 	}
